@@ -6,7 +6,8 @@
    position in (kept pins of the first operand) ++ (kept pins of the second), and the selection routines
    keep the other pins in their order (Solve.keep).  Last section: the pins Structure.join hands to them
    (get_out_to / get_in_from / the pairing loop) are the entries of the first operand's link table that point into the
-   second operand, paired with their recorded partners, and those are exactly Solve.links. *)
+   second operand, paired with their recorded partners, and those are exactly Solve.links; the merged structure's link
+   table is the operands' tables without the entries internal to it, its neighbour list the operands' outside neighbours. *)
 Section JoinSrcProof.
 Variable K : cfield.
 Context {L : cfield_laws K}.
@@ -299,3 +300,110 @@ Print Assumptions get_out_to_src_is_filter.
 Print Assumptions get_in_from_src_is_filter.
 Print Assumptions join_links_src_selects.
 Print Assumptions join_links_src_are_links.
+
+(* ---- the link table and the neighbour list Structure.join gives the merged structure ---- *)
+Section JoinConnProof.
+
+Definition crosses (structs : list nat) (it : spin * spin) : bool :=
+  negb (idmem (fst (fst it)) structs && idmem (fst (snd it)) structs).
+
+Lemma cset_fresh k v d : ~ In k (map fst d) -> cset k v d = d ++ [(k, v)].
+Proof.
+  induction d as [|it r IH]; simpl; [reflexivity|]. intros Hn.
+  destruct (spin_eqb_spec (fst it) k) as [He|He]; [exfalso; apply Hn; left; exact He|].
+  rewrite IH; [reflexivity|]. intros Hin. apply Hn. right. exact Hin.
+Qed.
+
+Lemma NoDup_keys_mid (acc : list (spin * spin)) it r :
+  NoDup (map fst (acc ++ it :: r)) -> ~ In (fst it) (map fst acc) /\ NoDup (map fst (acc ++ r)).
+Proof.
+  rewrite !map_app. simpl. intros H. split.
+  - intros Hin. apply NoDup_remove_2 in H. apply H. apply in_or_app. left. exact Hin.
+  - apply NoDup_remove_1 in H. exact H.
+Qed.
+
+Lemma fold_cset_filter (f : spin * spin -> bool) : forall l acc, NoDup (map fst (acc ++ l)) ->
+  fold_left (fun d it => if f it then cset (fst it) (snd it) d else d) l acc = acc ++ filter f l.
+Proof.
+  induction l as [|it r IH]; intros acc Hn; simpl; [rewrite app_nil_r; reflexivity|].
+  destruct (NoDup_keys_mid acc it r Hn) as [Hfresh Hrest].
+  destruct (f it).
+  - rewrite cset_fresh by exact Hfresh. rewrite IH.
+    + rewrite <- app_assoc. destruct it; reflexivity.
+    + rewrite <- app_assoc. destruct it; exact Hn.
+  - apply IH. exact Hrest.
+Qed.
+
+Lemma dict_merge_disjoint a b : NoDup (map fst (a ++ b)) -> dict_merge a b = a ++ b.
+Proof.
+  intros Hn. unfold dict_merge.
+  rewrite (fold_cset_filter (fun _ => true) b a Hn).
+  f_equal. induction b as [|x r IH]; simpl; [reflexivity|]. f_equal. apply IH.
+  apply (NoDup_keys_mid a x r) in Hn. exact (proj2 Hn).
+Qed.
+
+(* the operands' tables have distinct keys (two dicts over disjoint pin sets): the merged structure's table is the two
+   tables one after the other without the entries whose two ends both lie inside the merged structure *)
+Theorem join_conn_src_is_filter cdA cdB structs : NoDup (map fst (cdA ++ cdB)) ->
+  join_conn_src cdA cdB structs = filter (crosses structs) (cdA ++ cdB).
+Proof.
+  intros Hn. unfold join_conn_src. rewrite (dict_merge_disjoint cdA cdB Hn).
+  exact (fold_cset_filter (crosses structs) (cdA ++ cdB) [] Hn).
+Qed.
+
+Lemma idmem_In n l : idmem n l = true <-> In n l.
+Proof.
+  unfold idmem. rewrite existsb_exists. split.
+  - intros [x [Hx He]]. apply Nat.eqb_eq in He. subst. exact Hx.
+  - intros H. exists n. split; [exact H | apply Nat.eqb_refl].
+Qed.
+
+Lemma nodup_snoc {A} (l : list A) x : NoDup l -> ~ In x l -> NoDup (l ++ [x]).
+Proof.
+  induction l as [|y r IH]; simpl; intros Hn Hx; [constructor; [intros []|constructor]|].
+  inversion Hn as [|? ? Hy Hr]; subst. constructor.
+  - intros Hin. apply in_app_or in Hin. destruct Hin as [H|[H|[]]]; [exact (Hy H)|]. subst. apply Hx. left. reflexivity.
+  - apply IH; [exact Hr|]. intros H. apply Hx. right. exact H.
+Qed.
+
+Lemma join_to_fold structs : forall l acc, NoDup acc -> (forall s, In s acc -> ~ In s structs) ->
+  let r := fold_left (fun l s => if negb (idmem s l) && negb (idmem s structs) then l ++ [s] else l) l acc in
+  NoDup r /\ forall s, In s r <-> In s acc \/ (In s l /\ ~ In s structs).
+Proof.
+  induction l as [|x t IH]; intros acc Hn Hs; simpl.
+  - split; [exact Hn|]. intros s. tauto.
+  - destruct (idmem x acc) eqn:E1; simpl.
+    + destruct (IH acc Hn Hs) as [H1 H2]. split; [exact H1|]. intros s. rewrite H2.
+      apply idmem_In in E1. split; [tauto|]. intros [H|[[H|H] H']]; [tauto | subst; tauto | tauto].
+    + destruct (idmem x structs) eqn:E2; simpl.
+      * destruct (IH acc Hn Hs) as [H1 H2]. split; [exact H1|]. intros s. rewrite H2.
+        apply idmem_In in E2. split; [tauto|]. intros [H|[[H|H] H']]; [tauto | subst; contradiction | tauto].
+      * assert (Hx : ~ In x acc) by (intros H; apply idmem_In in H; congruence).
+        assert (Hxs : ~ In x structs) by (intros H; apply idmem_In in H; congruence).
+        destruct (IH (acc ++ [x])) as [H1 H2].
+        { apply nodup_snoc; assumption. }
+        { intros s Hin. apply in_app_or in Hin. destruct Hin as [Hin|[<-|[]]]; [apply Hs; exact Hin | exact Hxs]. }
+        split; [exact H1|]. intros s. rewrite H2. rewrite in_app_iff. simpl. split.
+        -- intros [[H|[H|[]]]|H]; [tauto | subst; tauto | tauto].
+        -- intros [H|[[H|H] H']]; [tauto | subst; tauto | tauto].
+Qed.
+
+(* the neighbours of the merged structure: every neighbour of an operand that is not inside the merged structure, once *)
+Theorem join_to_src_spec toA toB structs :
+  NoDup (join_to_src toA toB structs) /\
+  forall s, In s (join_to_src toA toB structs) <-> (In s toA \/ In s toB) /\ ~ In s structs.
+Proof.
+  destruct (join_to_fold structs (toA ++ toB) [] (NoDup_nil _) (fun s H => match H with end)) as [H1 H2].
+  split; [exact H1|]. intros s. unfold join_to_src. rewrite H2. rewrite in_app_iff. simpl. tauto.
+Qed.
+
+Example join_conn_src_nonvacuous :
+  join_conn_src [((1, 0), (2, 1)); ((1, 1), (3, 0))]%nat [((2, 1), (1, 0)); ((2, 0), (4, 2))]%nat [1; 2]%nat
+  = [((1, 1), (3, 0)); ((2, 0), (4, 2))]%nat
+  /\ join_to_src [2; 3]%nat [1; 4; 3]%nat [1; 2]%nat = [3; 4]%nat.
+Proof. split; reflexivity. Qed.
+
+End JoinConnProof.
+
+Print Assumptions join_conn_src_is_filter.
+Print Assumptions join_to_src_spec.
